@@ -77,6 +77,7 @@ Record case := {
   c_plain_dur_first : option obs;  (* duration first, then operations (fresh build) *)
   c_unrolled : option obs;         (* apply_modifiers(), then operations *)
   c_unrolled_twice : option obs;   (* apply_modifiers() twice *)
+  c_unrolled_dur_first : option obs;  (* fresh build, apply_modifiers(), duration first, then operations *)
   c_stable : bool;                 (* listing twice gave the same sequence *)
   c_reps_after : list Z            (* nr_of_repetitions of every sub-circuit after apply_modifiers *)
 }.
@@ -92,4 +93,5 @@ Definition model_unrolled (c : case) : obs :=
    order, and the same circuit duration, for the plain and for the unrolled circuit *)
 Definition agree_core (c : case) : bool :=
   opt_obs_agree (model_plain c) (c_plain c) && opt_obs_agree (model_plain c) (c_plain_dur_first c)
-  && opt_obs_agree (model_unrolled c) (c_unrolled c) && opt_obs_agree (model_unrolled c) (c_unrolled_twice c).
+  && opt_obs_agree (model_unrolled c) (c_unrolled c) && opt_obs_agree (model_unrolled c) (c_unrolled_twice c)
+  && opt_obs_agree (model_unrolled c) (c_unrolled_dur_first c).
